@@ -39,6 +39,12 @@ CLAIMED["C09"] = dict(
     note="Trusted: gcc/g++ 12, node 20 and rustc as the definition of 'builds'. Known findings are steered around by construction (identifier pools) and re-confirmed by probes.",
     ref="DESIGN.md §2 C09")
 
+CLAIMED["C05"] = dict(
+    engine="P", technique="grammar-based generation of valid programs plus single-fault mutation (Hypothesis), oracle = documented rule table, evaluated in-process through the public diplomat_core API and cross-checked on the diplomat-tool binary",
+    text="Both directions of the gate: programs built valid-by-construction for a drawn feature profile must lower cleanly; each of ~60 (rule x position) single-fault mutants must be rejected with an error whose context names the planted Type::method (or type). Exploration over programs x profiles x faults.",
+    note="Trusted: the fault table transcribed from the book and the property statement; dv-probe (a thin JSON wrapper over hir::TypeContext::from_syn). Rules on which the docs are silent are not asserted.",
+    ref="DESIGN.md §2 C05")
+
 TODO_REASON = "check not built yet in this revision of /verif (planned, see DESIGN.md §2); not claimed until it is silent on the unchanged tree and kills its mutants"
 
 ALL = ["C%02d" % i for i in range(1, 18)]
